@@ -18,6 +18,7 @@ import luqum.tree as tree  # noqa: E402  (instrumented working tree)
 SPEC = {
     "NoneItem": [],
     "Word": [("value", "str")], "Phrase": [("value", "str")], "Regex": [("value", "str")],
+    "Term": [("value", "str")], "BaseGroup": [("expr", "child")],     # instantiable, printable base classes
     "SearchField": [("name", "str"), ("expr", "child")],
     "Group": [("expr", "child")], "FieldGroup": [("expr", "child")],
     "Range": [("include_low", "bool"), ("include_high", "bool"), ("low", "child"), ("high", "child")],
@@ -31,8 +32,9 @@ SPEC = {
 
 
 def live_universe():
-    """concrete node classes of the live module: subclasses of Item defined in luqum.tree that have no
-    subclass there (A7).  A class missing from SPEC makes arrangement impossible => undecided."""
+    """node classes of the live module (A7): every subclass of Item defined in luqum.tree that is a leaf of the
+    class hierarchy, plus the base classes that can be instantiated and printed on their own (Term, BaseGroup:
+    they have a spec entry).  A leaf class missing from SPEC makes arrangement impossible => undecided."""
     out = []
     todo = [tree.Item]
     seen = set()
@@ -43,7 +45,7 @@ def live_universe():
         seen.add(c)
         subs = [s for s in c.__subclasses__() if s.__module__ == tree.__name__]
         todo.extend(subs)
-        if not subs and c is not tree.Item:
+        if c is not tree.Item and (not subs or c.__name__ in SPEC):
             out.append(c)
     out.sort(key=lambda c: c.__name__)
     for c in out:
@@ -549,7 +551,7 @@ def make_instance(cls, name, layout="sym", implicit=False, nops=2, child_classes
         inst = cls(*args["operands"], **kw)
         if any(isinstance(o, Run) for o in inst.operands):
             inst.operands = RunTuple(inst.operands)
-    elif cname == "Word":
+    elif cname in ("Word", "Term"):
         inst = cls(args["value"], **kw)
     elif cname == "Phrase":
         inner = args["value"]
@@ -558,7 +560,7 @@ def make_instance(cls, name, layout="sym", implicit=False, nops=2, child_classes
         inst = cls("/" + args["value"] + "/", **kw)
     elif cname == "SearchField":
         inst = cls(args["name"], args["expr"], **kw)
-    elif cname in ("Group", "FieldGroup"):
+    elif cname in ("Group", "FieldGroup", "BaseGroup"):
         inst = cls(args["expr"], **kw)
     elif cname == "Range":
         inst = cls(args["low"], args["high"], args["include_low"], args["include_high"], **kw)
